@@ -138,6 +138,10 @@ structure Kernel where
   /-- `std::thread::panicking()`: some task is unwinding (the flag is per OS thread, and every
   Shuttle task runs on the same one) — the task and its payload -/
   panicking : Option (Nat × String) := none
+  /-- further tasks that started to panic while the first one was suspended in the middle of its
+  unwinding (a destructor reached `thread::switch()`): a panic on another coroutine stack does not
+  abort — std aborts only when a panic escapes a destructor that runs during unwinding -/
+  alsoPanicking : List (Nat × String) := []
 deriving Repr, Inhabited
 
 /-- `StepError` (the payload of a task failure is the panic message). -/
@@ -442,11 +446,20 @@ def runSegment {P : Program} {σ : Type} (S : Scheduler σ) (me : Nat) :
     -- the closure returned — or, for the unwinding task, all destructors have run and the panic
     -- reaches `catch_unwind` in the run loop
     match st.k.panicking with
-    | some (t, msg) => if t == me then .panicked msg st else .returned { st with conts := st.conts.set me (.pure ()) }
+    | some (t, msg) =>
+      if t == me then .panicked msg st
+      else match st.k.alsoPanicking.find? (·.1 == me) with
+        | some (_, msg') => .panicked msg' st
+        | none => .returned { st with conts := st.conts.set me (.pure ()) }
     | none => .returned { st with conts := st.conts.set me (.pure ()) }
   | fuel + 1, st, .panic msg =>
     match st.k.panicking with
-    | some _ => .aborted msg st                     -- panic while panicking
+    | some (t, _) =>
+      if t == me || st.k.alsoPanicking.any (·.1 == me) then
+        .aborted msg st                             -- panic in a destructor during unwinding
+      else
+        -- another task is suspended mid-unwind: this panic unwinds its own stack normally
+        runSegment S me fuel { st with k := { st.k with alsoPanicking := st.k.alsoPanicking ++ [(me, msg)] } } (P.unwind me)
     | none =>
       -- start unwinding: run the task's destructors (they may reach scheduling points)
       runSegment S me fuel { st with k := { st.k with panicking := some (me, msg) } } (P.unwind me)
